@@ -47,6 +47,7 @@ type c20Case struct {
 	GetFields     []string          `json:"get_fields,omitempty"`  // read (Exists/Get) by the collector stand-in
 	Attributes    map[string]string `json:"attributes,omitempty"`
 	Events        []c20Event        `json:"events"`
+	Conc          *c20Conc          `json:"conc,omitempty"` // concurrent sub-mode (Events empty)
 }
 
 // Names Refinery reserves for its own metadata (types/payload.go metadata fields).
@@ -105,6 +106,12 @@ func genC20(t *rapid.T) c20Case {
 	c.ReqEncoding = rapid.SampledFrom([]string{"", "", "", "gzip", "zstd"}).Draw(t, "reqenc")
 	c.Compress = rapid.Bool().Draw(t, "compress")
 	c.MaxBatch = rapid.SampledFrom([]int{1, 2, 50}).Draw(t, "maxbatch")
+	// about one case in a hundred runs the concurrent sub-mode (c20_concurrent_test.go)
+	if rapid.Uint64().Draw(t, "concurrent")%96 == 49 {
+		c.Encoding, c.PeerHop = "json-batch", false
+		c.Conc = genC20Conc(t)
+		return c
+	}
 	names := rapid.SampledFrom(c20SamplerOK)
 	withRoot := rapid.Custom(func(t *rapid.T) string {
 		n := names.Draw(t, "sname")
@@ -234,6 +241,10 @@ func execC20(c c20Case) vkit.Result {
 	rig.caseMu.Lock()
 	defer rig.caseMu.Unlock()
 
+	if c.Conc != nil {
+		execC20Conc(rig, c, &res)
+		return res
+	}
 	jsonEnc := strings.HasPrefix(c.Encoding, "json")
 	enc := c.Encoding
 	if c.PeerHop {
